@@ -3,7 +3,7 @@
 From DA Require Import Prelude NDArray Array PyRT.
 From DA.Gen Require Import locate_slice.
 From DA.Model Require Import SliceSpec.
-From DA.Proofs Require Import C02_proofs.
+From DA.Proofs Require Import C02_proofs C02_decreasing.
 From Coq Require Import Sorted.
 
 (* unbounded: on any increasing numeric axis that the code's own test classifies as monotonic, for
@@ -39,6 +39,47 @@ Theorem C02_slice_increasing : forall k xs lo hi,
 Proof. exact bbox_slice_increasing. Qed.
 Print Assumptions C02_slice_increasing.
 
+(* the same, unbounded, on DECREASING axes (the code's inverted-axis branch, size - searchsorted(values[::-1], ..)):
+   the bounds are n minus the counts ... *)
+Theorem C02_bounds_decreasing : forall k xs lo hi step,
+  (k = KI \/ k = KF) ->
+  g_is_monotonic_equal (arrQ k xs) = Ok (PBool true) ->
+  axis_increasing xs = false ->
+  (step = None \/ exists s, step = Some s /\ (0 < s)%Z) ->
+  slice_bounds (arrQ k xs) (optQ lo) (optQ hi) step
+  = Ok (option_map (fun q => Z.of_nat (List.length xs) - Z.of_nat (count_le q xs))%Z lo,
+        option_map (fun q => Z.of_nat (List.length xs) - Z.of_nat (count_lt q xs))%Z hi).
+Proof. exact bridge_dec. Qed.
+Print Assumptions C02_bounds_decreasing.
+(* ... which delimit exactly the positions whose label lies between the bounds, both included (a[lo:hi] is
+   written in the direction of travel: lo is the larger bound) *)
+Theorem C02_bbox_decreasing : forall xs lo hi i,
+  StronglySorted Qgt' xs -> (i < List.length xs)%nat ->
+  ((List.length xs - count_le lo xs <= i < List.length xs - count_lt hi xs)%nat
+   <-> (hi <= nth i xs 0 /\ nth i xs 0 <= lo)%Q).
+Proof. exact bbox_decreasing. Qed.
+Print Assumptions C02_bbox_decreasing.
+Theorem C02_slice_decreasing : forall k xs lo hi,
+  (k = KI \/ k = KF) ->
+  g_is_monotonic_equal (arrQ k xs) = Ok (PBool true) ->
+  axis_increasing xs = false ->
+  StronglySorted Qgt' xs ->
+  exists a b,
+    run_slice (arrQ k xs) (PNum lo) (PNum hi) None (List.length xs) = Ok (seq a (b - a)) /\
+    forall i, In i (seq a (b - a)) <->
+              (i < List.length xs)%nat /\ (hi <= nth i xs 0 /\ nth i xs 0 <= lo)%Q.
+Proof. exact bbox_slice_decreasing. Qed.
+Print Assumptions C02_slice_decreasing.
+Example C02_decreasing_nonvacuous :
+  let xs := [4; 2.5; 1]%Q in
+  g_is_monotonic_equal (arrQ KF xs) = Ok (PBool true) /\ axis_increasing xs = false /\
+  StronglySorted Qgt' xs /\
+  run_slice (arrQ KF xs) (PNum 3) (PNum 1) None 3 = Ok [1; 2]%nat.
+Proof.
+  split; [reflexivity|]. split; [reflexivity|]. split.
+  - repeat constructor.
+  - reflexivity.
+Qed.
 (* position slices keep Python/NumPy's exclusive-stop meaning *)
 Theorem C02_position_slice : forall a b n,
   (a <= n)%nat -> (b <= n)%nat ->
